@@ -44,7 +44,7 @@ def run(name):
 def main():
     names = sys.argv[1:] or sorted(n for n in os.listdir(SEEDS) if os.path.isdir(os.path.join(SEEDS, n)))
     rows = []
-    with cf.ThreadPoolExecutor(max_workers=4) as pool:
+    with cf.ThreadPoolExecutor(max_workers=int(os.environ.get("SEED_JOBS", "4"))) as pool:
         for name, meta, r in pool.map(run, names):
             if not r["applies"]:
                 meta["confirmed"] = "patch no longer applies to the current tree"
